@@ -525,6 +525,10 @@ def _scenario_case(case, rng, seed, enc):
     traces, n_eval = [], 0
     X, Y, W = _scenario_data(case, rng, 1)
     Xq = np.vstack([X[:4], rng.normal(size=(2, X.shape[1])).round(3)])
+    if rng.random() < 0.25:
+        # integer feature matrices (validated with dtype=None by the wrappers): the dtype of X must not leak into
+        # probabilities or frequencies
+        X, Xq = np.round(2 * X).astype(int), np.round(2 * Xq).astype(int)
     y = _y_array(enc, Y)
     empty = not any(case["seen"]) and rng.random() < 0.4
 
